@@ -14,7 +14,7 @@ const ChildEnv = "CEDARVERIF_C17_CHILD"
 
 // Job describes what one child process runs.
 type Job struct {
-	Phases   []string `json:"phases"` // "pairs" "stress" "hist" "handshake" "handshake_seq" "fresh" "manager" "manager_seq" "duplex" "ccb"
+	Phases   []string `json:"phases"` // "pairs" "stress" "hist" "gated" "handshake" "handshake_seq" "fresh" "manager" "manager_seq" "duplex" "ccb"
 	Seed     int64    `json:"seed"`
 	Procs    int      `json:"procs"`
 	Yield    bool     `json:"yield"`
@@ -38,6 +38,9 @@ type ChildResult struct {
 	Episodes    []Episode           `json:"episodes"`
 	Net         map[string]NetStats `json:"net"`
 	WallMs      int64               `json:"wall_ms"`
+	GatedRuns   int                 `json:"gated_runs"`    // gated schedules run
+	GatedHeld   int                 `json:"gated_held"`    // ... in which operation A reached the expiry-check gate
+	GatedInside int                 `json:"gated_inside"`  // ... in which operation B returned while A was held there
 }
 
 // ChildMain runs the job named by the environment and exits.
@@ -76,6 +79,19 @@ func ChildMain(jobPath string) {
 					focus = &job.Pairs[(e/2)%len(job.Pairs)]
 				}
 				res.Episodes = append(res.Episodes, RecordEpisode(job.Seed*100003+int64(e), ng, perG, job.Yield || e%4 == 0, focus))
+			}
+		case "gated":
+			wait := time.Duration(job.PairMs) * time.Millisecond
+			for i, sc := range GatedScenarios(job.Pairs) {
+				ep, held, inside := RecordGated(job.Seed*100019+int64(i), sc, wait)
+				res.Episodes = append(res.Episodes, ep)
+				res.GatedRuns++
+				if held {
+					res.GatedHeld++
+				}
+				if inside {
+					res.GatedInside++
+				}
 			}
 		case "handshake":
 			res.Net[ph] = Handshakes(job.Seed, job.Clients, job.Iters, false, job.Yield, true)
